@@ -23,9 +23,12 @@
                                                                  canceled_counts_as_failure (F08-CANCELED)
   "a command that terminates abnormally never counts as          abnormal_nonzero (repaired D7; _unchanged_false)
    success"
-  "with -k any failure makes the exit status non-zero"           k_any_failure_nonzero
+  "with -k any failure makes the exit status non-zero"           k_any_failure_nonzero, k_out_of_band_failure (the -k test
+                                                                 reads the status AFTER the teardown merge),
+                                                                 out_of_band_rc_before_teardown
   quantifier "in any completion order"                           one_status_per_target, exit_any_schedule (composed with
                                                                  the fan-out LTS of C03: every schedule of every fanout)
+  mechanism "marker appended to command"                         marker_requested, sent_command_keeps_command
   quantifier "status in-band (marker line)"                      extractRc_correct (D9; _unchanged_false, _partial),
                                                                  hostRc_inband (LATE; late_line_unchanged_false),
                                                                  inband_host_faithful, inband_exit_admissible,
@@ -37,9 +40,9 @@
   NOT PROVED / NOT MODELLED:
     * `pipecmd_wait` / `waitpid` (that exec_destroy blocks until the child is gone and returns its real status): real
       children in the harness (`xd`, late-exit children) and the real binary, no theorem.
-    * the -k fail-fast is modelled by its effect on the exit status (`kFails` on the final per-target data), not as a
-      transition of the fan-out LTS: that the test comes AFTER the teardown status is merged is checked on the real
-      dsh() (scripted transport) and the real binary in every quick run (out-of-band failure x -k), no theorem.
+    * the -k fail-fast is modelled by its effect on the exit status (`kFails` on the per-target data AFTER the teardown
+      merge: k_out_of_band_failure), not as a transition of the fan-out LTS (which sibling is killed when): the real
+      dsh() (scripted transport) and the real binary run out-of-band failure x -k x position in every quick run.
     * `_die_if_signalled` (a marker code > 128 in mid-stream under -k): time dependent; generator keeps clear of it.
     * the Linux wait-status encoding, glibc atoi / strstr: modelled (Exit.lean, Base/CInt.lean), not verified.
     * pdcp / rpdcp: the exit status of a copy run is 0 whatever was copied (pcp_exit0); whether files arrived is C11.
@@ -164,6 +167,29 @@ theorem canceled_counts_as_failure (fx : Fixes) (hc : fx.canc = true) :
   have : RC_FAILED = 254 := by decide
   cases hd : fx.d8 <;> simp [aggregate, aggLoop, seen, hc, hd, this] <;> omega
 
+/-! ## the request for the status: "marker appended to command" -/
+
+/-- THE STATUS IS ASKED FOR exactly when it is needed: with -S or with -k the command string handed to the transport
+    is the user's command followed by `;echo XXRETCODE:$?` (so that an in-band transport's remote shell prints the
+    marker line `extractRc_correct` reads); without both flags it is the user's command, verbatim -/
+theorem marker_requested (fl : Flags) (cmd : Str) :
+    ((fl.S = true ∨ fl.k = true) → sentCommand fl cmd = cmd ++ ";echo XXRETCODE:$?".toList) ∧
+    (fl.S = false → fl.k = false → sentCommand fl cmd = cmd) := by
+  have hg : getstat = ";echo XXRETCODE:$?".toList := by decide
+  constructor
+  · intro h
+    unfold sentCommand
+    rcases h with h | h <;> simp [h, hg]
+  · intro h1 h2
+    simp [sentCommand, h1, h2]
+
+/-- the user's command is a prefix of what is sent in every case: nothing is inserted in front or inside -/
+theorem sent_command_keeps_command (fl : Flags) (cmd : Str) : cmd <+: sentCommand fl cmd := by
+  unfold sentCommand
+  split
+  · exact List.prefix_append _ _
+  · exact List.prefix_refl _
+
 /-! ## marker extraction -/
 
 /-- repaired `_extract_rc` (D9): on the marker line `pre ++ "XXRETCODE:" ++ decimal c ++ "\n"` whose `pre`
@@ -246,6 +272,33 @@ theorem k_any_failure_nonzero (fx : Fixes) (S : Bool) (hs : List Host) (h : ∃ 
     mainExit fx ⟨S, true⟩ (.started hs) = 1 := by
   have : hs.any kFails = true := by simpa [List.any_eq_true] using h
   simp [mainExit, this]
+
+/-- -k SEES THE TEARDOWN STATUS (repaired D7): for the out-of-band channel the status of a target arrives only at
+    its teardown (`rv = rcmd_destroy`, merged into `rc` by `finalRc`); the -k test reads the merged value, so EVERY
+    failure in the property's domain — a non-zero code, death by a signal, an unreachable host, a time-out — fires it,
+    in whatever position the target stands, and the exit status is 1.  (A -k test placed before the merge would see
+    `rc = 0` for each of them: the class of the seeded changes C08-3 / -5 / -8.) -/
+theorem k_out_of_band_failure (fx : Fixes) (hd7 : fx.d7 = true) (S : Bool) (outs : List Outcome)
+    (hok : ∀ o ∈ outs, okOutcome o) (hfail : ∃ o ∈ outs, o.isFailure = true) :
+    mainExit fx ⟨S, true⟩ (.started (outs.map fun o => hostOf fx (execScript fx o))) = 1 := by
+  obtain ⟨o, ho, hf⟩ := hfail
+  apply k_any_failure_nonzero
+  refine ⟨hostOf fx (execScript fx o), List.mem_map.mpr ⟨o, ho, rfl⟩, ?_⟩
+  rw [execHost_eq fx hd7 o (hok o ho)]
+  cases o with
+  | exited c =>
+    cases c with
+    | zero => simp [ExitSpec.Outcome.isFailure] at hf
+    | succ c => simp [kFails, execHostSpec] <;> omega
+  | killed s => simp [kFails, execHostSpec] <;> omega
+  | connectFailed => simp [kFails, execHostSpec]
+  | timedOut => simp [kFails, execHostSpec]
+
+/-- ... while the value BEFORE the merge is 0 for every out-of-band failure that is reachable: the teardown status
+    is the only carrier -/
+theorem out_of_band_rc_before_teardown (fx : Fixes) (o : Outcome) :
+    rcAfterLines fx (splitLines (execScript fx o).stdout) = 0 := by
+  cases o <;> simp [execScript, splitLines_nil, rcAfterLines]
 
 /-! ## the repaired model refines the specification, for every status channel -/
 
